@@ -38,9 +38,11 @@ inductive Discharge
   /-- `secrets.token_urlsafe(n)` with a CONSTANT n (Gen fact): the text has the fixed width ⌈4n/3⌉, so it cannot make two
   frames differ in size; it is carried as an opaque ICMP payload. -/
   | fixedLenSecret
-  /-- an unseeded reading whose TEXT LENGTH reaches `Frame.size` (clock stamp with/without microseconds; ICMP identifier of
-  1..5 digits; NTP reply time): OPEN FINDING F-9. The theorems carry the hypothesis `StampLenAgree`. -/
-  | readingLenF9
+  /-- an unseeded reading whose TEXT reaches `Frame.size` (clock stamps of a frame, the time inside an NTP reply, the generated ICMP
+  identifier). Finding F-9, REPAIRED: the text has a constant width (Gen facts: the reading is stored in a datetime field whose
+  model serialises it with `isoformat(timespec='microseconds')`; the identifier is drawn from 10000..65535 = five digits), so
+  `StampLenAgree` holds for every pair of environments. -/
+  | fixedWidthReading
   /-- a clock reading whose value flows only into a directory name, a `show()` table or a log call (Gen fact: the sinks of
   a forward data-flow); it never reaches a frame size. -/
   | clockNotRead
@@ -99,8 +101,7 @@ inductive Basis | lemma | mechanical | trusted | openFinding
   deriving DecidableEq, Repr
 
 def Discharge.basis : Discharge → Basis
-  | .readingLenF9 => .openFinding
-  | .fixedLenSecret | .clockNotRead | .seededRng | .seeding | .unseededByConfig | .offline | .setDeclCovered | .setEmpty
+  | .fixedWidthReading | .fixedLenSecret | .clockNotRead | .seededRng | .seeding | .unseededByConfig | .offline | .setDeclCovered | .setEmpty
   | .setSingleton | .hashValueDiscarded => .mechanical
   | .hashNotIterated | .setMembershipOnly | .setIntHash | .idTextEqOnly => .trusted
   | _ => .lemma
@@ -108,8 +109,21 @@ def Discharge.basis : Discharge → Basis
 /-- kept for the evidence: reasons that rest on anything but a lemma or a mechanical fact -/
 def Discharge.byReading (d : Discharge) : Bool := d.basis == .trusted
 
+/-- the datetime fields that are part of a Frame's JSON (the frame's own stamps, and the time inside an NTP reply it carries) -/
+def frameDatetimeFields : List String := ["sent_timestamp", "received_timestamp", "ntp_datetime"]
+
+/-- does every model field of that name have the fixed-width serialiser (regenerated table `datetimeFields`)? -/
+def serialisedFixedWidth (field : String) : Bool :=
+  (datetimeFields.any fun d => d.2.2.1 == field) && (datetimeFields.all fun d => d.2.2.1 != field || d.2.2.2)
+
 /-- The premise about the CODE that a reason needs, as a test on the regenerated fact of its site. -/
 def Discharge.supportedBy : Discharge → Fact → Bool
+  | .fixedWidthReading, .storedIn fs =>
+    -- the reading is stored in (at least) one datetime field of a frame, and every such field it may be stored in is serialised with
+    -- a constant width
+    (fs.any fun f => frameDatetimeFields.contains f) && (fs.all fun f => !frameDatetimeFields.contains f || serialisedFixedWidth f)
+  | .fixedWidthReading, .boundedSecret lo hi => lo == 10000 && hi == 65535
+  | .fixedWidthReading, _ => false
   | .fixedLenSecret, .constSecret n => tokenUrlsafeLen n == 32      -- the ICMP payload: 24 bytes, 32 characters
   | .fixedLenSecret, _ => false
   | .clockNotRead, .sinks l => l.all fun s => s == "path" || s == "show" || s == "log"
@@ -149,11 +163,14 @@ def Discharge.Justified : Discharge → Prop
         interp g ρ (.idEq a b k) w = interp g ρ' (.idEq a b k) w) ∧
     (∀ (f : Nat → Nat), (∀ a b, f a = f b → a = b) → ∀ ls : List (List (Tok Nat)),
       canonRun [] (ls.map fun l => l.map (Tok.map f)) = canonRun [] ls)
-  | .readingLenF9 =>
-    ∀ (ι ι' : Type) [DecidableEq ι] [DecidableEq ι'] (g : Fixed) (ρ : Rho ι) (ρ' : Rho ι'), ρ.Valid → ρ'.Valid →
-      StampLenAgree g ρ ρ' → ∀ (base : Nat) (hs : List Nat) (k : Nat → Prog Nat) (w : World),
-        (∀ n, (k n).Safe g.seeds (StampLenAgree g ρ ρ')) →
-        interp g ρ (.frameSize base hs k) w = interp g ρ' (.frameSize base hs k) w
+  | .fixedWidthReading =>
+    -- a fixed-width text makes the side condition true of ALL environments, and a frame sized from readings independent of them;
+    -- five-digit identifiers have a text of width 5
+    (∀ (g : Fixed), g.FixedWidth → ∀ (ι ι' : Type) (ρ : Rho ι) (ρ' : Rho ι'), StampLenAgree g ρ ρ') ∧
+    (∀ (ι ι' : Type) [DecidableEq ι] [DecidableEq ι'] (g : Fixed) (ρ : Rho ι) (ρ' : Rho ι'), ρ.Valid → ρ'.Valid → g.FixedWidth →
+      ∀ (base : Nat) (hs : List Nat) (k : Nat → Prog Nat) (w : World), (∀ n, (k n).Safe g.seeds True) →
+        interp g ρ (.frameSize base hs k) w = interp g ρ' (.frameSize base hs k) w) ∧
+    (∀ n : Nat, 10000 ≤ n → n ≤ 65535 → decimalLen n = 5)
   | .fixedLenSecret =>
     -- readings whose text has a fixed width satisfy the side condition whatever the environments
     ∀ (g : Fixed) (width : Nat), (∀ t, g.textLen t = width) →
@@ -209,9 +226,19 @@ theorem Discharge.justified : ∀ d : Discharge, d.Justified := by
       exact interp_indep g hv hv' _ w hk
     · intro f hf ls
       simpa using canonRun_map_inj f hf ls []
-  case readingLenF9 =>
-    intro ι ι' _ _ g ρ ρ' hv hv' hl base hs k w hk
-    exact interp_indep g hv hv' _ w ⟨.inr hl, hk⟩
+  case fixedWidthReading =>
+    refine ⟨fun g hw ι ι' ρ ρ' k k' => hw _ _, ?_, ?_⟩
+    · intro ι ι' _ _ g ρ ρ' hv hv' hw base hs k w hk
+      have hl : StampLenAgree g ρ ρ' := fun k k' => hw _ _
+      exact interp_indep g hv hv' _ w ⟨.inr hl, fun n => Prog.Safe.mono (fun _ => hl) (hk n)⟩
+    · intro n h1 h2
+      unfold decimalLen
+      have a1 : ¬ n < 10 := by omega
+      have a2 : ¬ n < 100 := by omega
+      have a3 : ¬ n < 1000 := by omega
+      have a4 : ¬ n < 10000 := by omega
+      have a5 : n < 100000 := by omega
+      simp [a1, a2, a3, a4, a5]
   case fixedLenSecret =>
     intro g width hw ι ι' ρ ρ' k k'
     rw [hw, hw]
@@ -279,10 +306,10 @@ def table : List (Site × Discharge) := [
   (⟨"simulator/network/hardware/nodes/network/router.py", "RouteTable.add_route", .setIter, "for <- {address, subnet_mask, next_hop_ip_address}", 0⟩, .setNoEffect),
   (⟨"simulator/network/hardware/nodes/network/router.py", "RouterICMP._process_icmp_echo_request", .secrets, "secrets.token_urlsafe(int(32 / 1.3))", 0⟩, .fixedLenSecret),
   (⟨"simulator/network/hardware/nodes/network/switch.py", "Switch.receive_frame", .idText, "dst_mac.lower()", 0⟩, .idTextEqOnly),
-  (⟨"simulator/network/protocols/icmp.py", "ICMPPacket.__init__", .secrets, "secrets.randbits(16)", 0⟩, .readingLenF9),
+  (⟨"simulator/network/protocols/icmp.py", "ICMPPacket.__init__", .secrets, "secrets.randbelow(55536)", 0⟩, .fixedWidthReading),
   (⟨"simulator/network/transmission/data_link_layer.py", "Frame.is_broadcast", .idText, "self.ethernet.dst_mac_addr.lower()", 0⟩, .idTextEqOnly),
-  (⟨"simulator/network/transmission/data_link_layer.py", "Frame.set_received_timestamp", .clock, "datetime.now()", 0⟩, .readingLenF9),
-  (⟨"simulator/network/transmission/data_link_layer.py", "Frame.set_sent_timestamp", .clock, "datetime.now()", 0⟩, .readingLenF9),
+  (⟨"simulator/network/transmission/data_link_layer.py", "Frame.set_received_timestamp", .clock, "datetime.now()", 0⟩, .fixedWidthReading),
+  (⟨"simulator/network/transmission/data_link_layer.py", "Frame.set_sent_timestamp", .clock, "datetime.now()", 0⟩, .fixedWidthReading),
   (⟨"simulator/system/applications/application.py", "Application", .setDecl, "groups : Set[str]", 0⟩, .setEmpty),
   (⟨"simulator/system/applications/application.py", "Application.describe_state", .setIter, "list <- self.groups", 0⟩, .setEmpty),
   (⟨"simulator/system/applications/database_client.py", "DatabaseClient._query", .uuid, "uuid4()", 0⟩, .idToken),
@@ -298,7 +325,7 @@ def table : List (Site × Discharge) := [
   (⟨"simulator/system/services/database/database_service.py", "DatabaseService._generate_connection_id", .uuid, "uuid4()", 0⟩, .idToken),
   (⟨"simulator/system/services/icmp/icmp.py", "ICMP._process_icmp_echo_request", .secrets, "secrets.token_urlsafe(int(32 / 1.3))", 0⟩, .fixedLenSecret),
   (⟨"simulator/system/services/icmp/icmp.py", "ICMP._send_icmp_echo_request", .secrets, "secrets.token_urlsafe(int(32 / 1.3))", 0⟩, .fixedLenSecret),
-  (⟨"simulator/system/services/ntp/ntp_server.py", "NTPServer.receive", .clock, "datetime.now()", 0⟩, .readingLenF9),
+  (⟨"simulator/system/services/ntp/ntp_server.py", "NTPServer.receive", .clock, "datetime.now()", 0⟩, .fixedWidthReading),
   (⟨"simulator/system/services/terminal/terminal.py", "Terminal._create_local_connection", .clock, "datetime.now()", 0⟩, .clockNotRead),
   (⟨"simulator/system/services/terminal/terminal.py", "Terminal._create_remote_connection", .clock, "datetime.now()", 0⟩, .clockNotRead),
   (⟨"simulator/system/services/terminal/terminal.py", "Terminal._send_remote_login", .uuid, "uuid4()", 0⟩, .idToken),
